@@ -280,3 +280,8 @@ class RungLevels_explicit:
             "the-given-levels-without-max_t": len(result) == (n - 1 if strip else n) and forall(range(0, len(result)), lambda k: result[k] == old.rung_levels[k]),
             "all-below-max": forall(range(0, len(result)), lambda k: result[k] < old.max_t),
         }
+
+
+from pyvc.native import native_monitor  # noqa: E402
+
+EXTRA_CHECKS = [native_monitor("C03", "contracts.c04_native", "monitor_hyperband", "hyperband", "931 (thorough 4759) scenarios of the real HyperbandScheduler; for C03 the stopping family: 170 (700) scenarios, brackets 1..3, shared and per-bracket rung systems, 12 rung systems (grace / reduction factor, rung_increment, explicit lists), both modes, reports that jump over resource values and over max_t; decisions compared with numpy quantiles on an independent ledger with tie latitude")]
